@@ -1,5 +1,6 @@
 """NodeSet2 document ASTs, a renderer with layout variations, and random generators."""
 import random
+import re as _re
 UA = "http://opcfoundation.org/UA/"
 NS_NODESET = "http://opcfoundation.org/UA/2011/03/UANodeSet.xsd"
 NS_TYPES = "http://opcfoundation.org/UA/2008/02/Types.xsd"
@@ -53,6 +54,10 @@ def render(doc, rng=None, layout=None):
             out.append(pad(2) + "</%s>%s" % (T("References"), nl))
         if n.get("value") is not None:
             out.append(pad(2) + "<%s>%s</%s>%s" % (T("Value"), n["value"], T("Value"), nl))
+        if n.get("extensions"):
+            x_ = n["extensions"]
+            if pfx: x_ = _re.sub(r"<(/?)([A-Za-z])", lambda m: "<%s%s:%s" % (m.group(1), pfx, m.group(2)), x_)
+            out.append(pad(2) + x_ + nl)
         out.append(pad(1) + "</%s>%s" % (T(n["cls"]), nl))
     out.append("</%s>%s" % (T("UANodeSet"), nl))
     return "".join(out)
